@@ -94,7 +94,7 @@ func init() {
 		"that the passes compute the right strings (single line, RE2-parsable, \\s always together with \\x0b, no inline flag group surviving): value-level facts about text produced by a third-party optimiser.",
 		nil,
 		func(c *Ctx, tier string) []*Result {
-			return []*Result{c.RuleEscParity(), c.RuleFlagSet(), inPkg(c.RuleMapOrder(), 1, "regex/operators"), c.RuleSanitize(), c.RuleTemplate(c.cmdFns("update")), c.RuleEscMatch(), c.RuleFlagPattern(), c.RuleLogStderr(), c.RuleStdoutPure(), inFns(c.RuleRxRebuild(), c.cmdFns("update"), 1), c.RulePrintfConst(), c.RuleEscPos()}
+			return []*Result{c.RuleEscParity(), c.RuleFlagSet(), inPkg(c.RuleMapOrder(), 1, "regex/operators"), c.RuleSanitize(), c.RuleTemplate(c.cmdFns("update")), c.RuleEscMatch(), c.RuleFlagPattern(), c.RuleLogStderr(), c.RuleStdoutPure(), inFns(c.RuleRxRebuild(), c.cmdFns("update"), 1), c.RulePrintfConst(), c.RuleEscPos(), c.RulePatternPin("regex.RuleRxRegex")}
 		})
 
 	prop("C03", "other",
@@ -114,7 +114,7 @@ func init() {
 		func(c *Ctx, tier string) []*Result {
 			drop, handle := c.RuleErrCached()
 			return []*Result{c.RuleIsoOwner(), c.RuleFlagsReject(), keyHas(c.RuleIsoFresh(), 2, ":regex/parser."), c.RuleIsoGlobal("unit:(*regex/operators.Operator).Run"),
-				inPkg(drop, 3, "regex/parser"), inPkg(handle, 3, "regex/parser"), c.RuleDeferInLoop(), c.RuleDefMerge(), c.RuleContextDirs(), c.RuleCutset(), c.RuleLogStderr(), c.RuleStdoutPure(), c.RuleIncludeName()}
+				inPkg(drop, 3, "regex/parser"), inPkg(handle, 3, "regex/parser"), c.RuleDeferInLoop(), c.RuleDefMerge(), c.RuleContextDirs(), c.RuleCutset(), c.RuleLogStderr(), c.RuleStdoutPure(), c.RuleIncludeName(), c.RulePatternPin("regex.IncludeRegex", "regex.IncludeExceptRegex")}
 		})
 
 	prop("C06", "other",
@@ -124,7 +124,7 @@ func init() {
 		nil,
 		func(c *Ctx, tier string) []*Result {
 			return []*Result{inPkg(c.RuleMapOrder(), 2, "regex/parser"), c.RuleOrderKey(),
-				inPkg(c.RuleRxGroups(), 1, "regex/parser"), inPkg(c.RuleScanErr(), 3, "regex/parser"), c.RuleSuffixOps(), c.RuleExclKey(), c.RuleIsoGlobal("unit:(*regex/operators.Operator).Run"), c.RuleDefMerge(), c.RuleCutset(), c.RuleLogStderr(), c.RuleStdoutPure(), c.RuleIsoOwner(), c.RuleIncludeName()}
+				inPkg(c.RuleRxGroups(), 1, "regex/parser"), inPkg(c.RuleScanErr(), 3, "regex/parser"), c.RuleSuffixOps(), c.RuleExclKey(), c.RuleIsoGlobal("unit:(*regex/operators.Operator).Run"), c.RuleDefMerge(), c.RuleCutset(), c.RuleLogStderr(), c.RuleStdoutPure(), c.RuleIsoOwner(), c.RuleIncludeName(), c.RulePatternPin("regex.IncludeExceptRegex", "regex.IncludeRegex")}
 		})
 
 	prop("C07", "other",
@@ -135,7 +135,7 @@ func init() {
 		func(c *Ctx, tier string) []*Result {
 			// every map iteration of the parser package except the ones that belong to C03/C06 alone
 			mo := inPkg(c.RuleMapOrder(), 1, "regex/parser")
-			return []*Result{c.RuleDefFragment(), mo, c.RuleIsoOwner(), keyHas(c.RuleRxDisjoint(false), 1, ":line handed to "), c.RuleDefMerge(), c.RuleRangeIndex(), inPkg(c.RuleErrLog(), 1, "regex/parser"), c.RuleLogStderr(), c.RuleStdoutPure(), c.RuleRxDisjoint(false)}
+			return []*Result{c.RuleDefFragment(), mo, c.RuleIsoOwner(), keyHas(c.RuleRxDisjoint(false), 1, ":line handed to "), c.RuleDefMerge(), c.RuleRangeIndex(), inPkg(c.RuleErrLog(), 1, "regex/parser"), c.RuleLogStderr(), c.RuleStdoutPure(), c.RuleRxDisjoint(false), c.RulePatternPin("regex.DefinitionRegex")}
 		})
 
 	prop("C08", "other",
@@ -155,7 +155,7 @@ func init() {
 		func(c *Ctx, tier string) []*Result {
 			return []*Result{keyHas(c.RuleFsGuard([]string{"format"}), 1, "cmd format"), c.RuleFsSame([]string{"format"}),
 				inFns(c.RuleErrFlags(), c.cmdFns("format"), 0), keyHas(c.RuleFsAlways([]string{"format"}), 1, "cmd format"), inFns(c.RuleFsWriteDiscipline(), c.cmdFns("format"), 1), c.RuleFormatOnly(),
-				c.RuleWalkSkip("format"), c.RuleWalkFilter("format"), inFns(c.RuleResolve(), c.cmdFns("format"), 1), c.RulePredPure(), c.RuleFmtTrim(), inFns(c.errHandleOnly(), c.cmdFns("format"), 2), inFns(c.RuleErrLog(), c.cmdFns("format"), 1), c.RuleExactCompare()}
+				c.RuleWalkSkip("format"), c.RuleWalkFilter("format"), inFns(c.RuleResolve(), c.cmdFns("format"), 1), c.RulePredPure(), c.RuleFmtTrim(), inFns(c.errHandleOnly(), c.cmdFns("format"), 2), inFns(c.RuleErrLog(), c.cmdFns("format"), 1), c.RuleExactCompare(), c.RulePatternPin("regex.ProcessorEndRegex", "regex.ProcessorStartRegex")}
 		})
 
 	prop("C10", "other",
@@ -168,7 +168,7 @@ func init() {
 			drop, handle := c.RuleErrCached()
 			_ = drop
 			return []*Result{inFns(c.RuleRxRebuild(), fmtFns, 7), c.RuleRxDisjoint(tier == "thorough"), inFns(c.RuleRxGroups(), fmtFns, 7),
-				inFns(handle, fmtFns, 2), inFns(c.RuleErrLog(), fmtFns, 2), c.RuleFormatOnly(), inFns(c.RuleFsWriteDiscipline(), fmtFns, 1), c.RulePrintfConst(), c.RuleProcStart(), c.RulePredPure(), c.RuleFmtTrim(), c.RuleExactCompare(), c.RuleBufAlias()}
+				inFns(handle, fmtFns, 2), inFns(c.RuleErrLog(), fmtFns, 2), c.RuleFormatOnly(), inFns(c.RuleFsWriteDiscipline(), fmtFns, 1), c.RulePrintfConst(), c.RuleProcStart(), c.RulePredPure(), c.RuleFmtTrim(), c.RuleExactCompare(), c.RuleBufAlias(), c.RulePatternPin("regex.IncludeRegex", "regex.IncludeExceptRegex", "regex.DefinitionRegex", "regex.FlagsRegex", "regex.PrefixRegex", "regex.SuffixRegex", "regex.CommentRegex", "regex.ProcessorEndRegex", "regex.ProcessorStartRegex")}
 		})
 
 	prop("C11", "other",
@@ -180,7 +180,7 @@ func init() {
 			upd := c.cmdFns("update")
 			return []*Result{keyHas(c.RuleFsTarget([]string{"update"}), 1, "cmd update"), c.RuleSplitJoinFrame(), inFns(c.RuleRxRebuild(), upd, 1),
 				inFns(c.RuleValidate(), upd, 1), c.RuleTemplate(upd), inFns(c.RuleFsWriteDiscipline(), upd, 1), inFns(c.RuleResolve(), upd, 1), keyHas(c.RuleIsoFresh(), 1, "cmd update"),
-				inFns(c.RuleNarrow(), upd, 1), inFns(c.RuleSiblingRuleId(), upd, 1), c.RuleIsoGlobal("update"), c.RuleSiblingLocator(), inFns(c.errHandleOnly(), upd, 2), c.RuleWriteReached("update"), c.RuleRxGrammar(), keyHas(c.RuleResolve(), 1, "input of the assembler")}
+				inFns(c.RuleNarrow(), upd, 1), inFns(c.RuleSiblingRuleId(), upd, 1), c.RuleIsoGlobal("update"), c.RuleSiblingLocator(), inFns(c.errHandleOnly(), upd, 2), c.RuleWriteReached("update"), c.RuleRxGrammar(), keyHas(c.RuleResolve(), 1, "input of the assembler"), c.RulePatternPin("regex.RuleRxRegex", "regex.SecRuleRegex")}
 		})
 
 	prop("C12", "other",
@@ -195,7 +195,7 @@ func init() {
 			}
 			return []*Result{c.RuleSiblingLocator(), c.RuleCompareVerdict(), keyHas(inFns(c.RuleRxGroups(), both, 2), 2, "regex.RuleRxRegex"),
 				inFns(c.RuleErrFlags(), c.cmdFns("compare"), 0), c.RuleTemplate(c.cmdFns("update")), inFns(c.RuleRxRebuild(), c.cmdFns("update"), 1),
-				inFns(c.RuleNarrow(), both, 2), c.RuleSiblingRuleId(), c.RuleSplitJoinFrame(), c.RuleIsoGlobal("update", "compare"), inPkg(c.RuleMapOrder(), 2, "regex/parser"), c.RuleErrWrap(), c.RuleValidateStore(), c.RuleWriteReached("update"), c.RuleLogStderr(), c.RuleStdoutPure(), c.RuleRxGrammar(), c.RuleWalkSkip("update", "compare"), inFns(c.RuleValidate(), c.cmdFns("update"), 1), c.RulePrintfConst(), keyHas(c.RuleResolve(), 1, "input of the assembler"), c.RuleExactCompare()}
+				inFns(c.RuleNarrow(), both, 2), c.RuleSiblingRuleId(), c.RuleSplitJoinFrame(), c.RuleIsoGlobal("update", "compare"), inPkg(c.RuleMapOrder(), 2, "regex/parser"), c.RuleErrWrap(), c.RuleValidateStore(), c.RuleWriteReached("update"), c.RuleLogStderr(), c.RuleStdoutPure(), c.RuleRxGrammar(), c.RuleWalkSkip("update", "compare"), inFns(c.RuleValidate(), c.cmdFns("update"), 1), c.RulePrintfConst(), keyHas(c.RuleResolve(), 1, "input of the assembler"), c.RuleExactCompare(), c.RulePatternPin("regex.RuleRxRegex", "regex.SecRuleRegex")}
 		})
 
 	prop("C13", "other",
@@ -207,7 +207,7 @@ func init() {
 			return []*Result{keyHas(c.RuleFsGuard([]string{"renumber-tests"}), 1, "cmd renumber-tests"), c.RuleFsSame([]string{"renumber-tests"}),
 				keyHas(c.RuleFsTarget([]string{"renumber-tests"}), 1, "cmd renumber-tests"), inFns(c.RuleRxRebuild(), c.cmdFns("renumber-tests"), 2),
 				inFns(c.RuleScanErr(), c.cmdFns("renumber-tests"), 1), inFns(c.RuleRxGroups(), c.cmdFns("renumber-tests"), 3), c.RuleIsoGlobal("renumber-tests"),
-				inFns(c.RuleErrFlags(), c.cmdFns("renumber-tests"), 0), c.RuleFsAlways([]string{"renumber-tests"}), inFns(c.RuleFsWriteDiscipline(), c.cmdFns("renumber-tests"), 1), c.RuleWalkFilter("renumber-tests"), c.RuleWalkSkip("renumber-tests"), inFns(c.errHandleOnly(), c.cmdFns("renumber-tests"), 2), c.RuleRxSibling(), c.RuleTestFileGrammar(), c.RuleBufAlias()}
+				inFns(c.RuleErrFlags(), c.cmdFns("renumber-tests"), 0), c.RuleFsAlways([]string{"renumber-tests"}), inFns(c.RuleFsWriteDiscipline(), c.cmdFns("renumber-tests"), 1), c.RuleWalkFilter("renumber-tests"), c.RuleWalkSkip("renumber-tests"), inFns(c.errHandleOnly(), c.cmdFns("renumber-tests"), 2), c.RuleRxSibling(), c.RuleTestFileGrammar(), c.RuleBufAlias(), c.RulePatternPin("regex.TestIdRegex", "regex.TestTitleRegex")}
 		})
 
 	prop("C14", "other",
